@@ -175,6 +175,7 @@ def run_shard(shard, ctx):
             judge(s, acc)
     elif kind == 'serial-noeffect':
         serial_noeffect(acc)
+        serial_malformed(acc)
     return acc
 
 
@@ -208,6 +209,31 @@ def serial_noeffect(acc):
                         ('alt-loc', _c08(dict(kind='alt', layout=[('A', 'ASP'), ('B', 'ASPs')], lys=[('B', 'LYSs'), ('C', 'LYS')]))),
                         ('models', _c08(dict(kind='model', layout=[(1, 'ASP'), (2, 'ASPnoCG'), (3, 'absent')])))):
         serial_noeffect_on(acc, which, base)
+
+
+MALFORMED_SERIALS = ('*****', ' ****', '**   ', '  *  ', '12*45', 'Ab123', 'aB123', '     ', '+1234', '1 234', 'A_000', '0x1F ', '1e3  ', '#####', '-----', 'A-123')
+
+
+def serial_malformed(acc):
+    """A malformed serial field is rejected with ValueError wherever the file is read (not only by decode() called directly)."""
+    base = gen.library().window('3SGB', 'I', 26, 3)
+    for field in MALFORMED_SERIALS:
+        for where in (0, len(base.atoms) // 2, len(base.atoms) - 1):
+            atoms = base.copy()
+            atoms.atoms[where].serial = field
+            acc.n += 1
+            acc.nontrivial_n += 1
+            try:
+                pk.run(gen.to_text(atoms))
+                got = None
+            except ValueError:
+                got = 'ValueError'
+            except Exception as exc:    # noqa: BLE001
+                got = type(exc).__name__
+            acc.outcomes['malformed-serial:%s' % got] += 1
+            if got != 'ValueError':
+                acc.viols.append(Viol(dict(kind='serial-malformed', field=field, where=where), 'serial-noeffect', 'malformed-serial-accepted-by-reader/%s' % (
+                    'asterisks' if set(field.strip()) == {'*'} else 'other'), 'serial field %r: %s' % (field, got or 'accepted'), inputs=dict(pdb=gen.to_text(atoms))))
 
 
 def _c08(d):
@@ -285,6 +311,11 @@ def run_case(case, ctx, acc):
             bad = a + 1 != b
         if bad:
             acc.viols.append(Viol(case, 'monotone', case['ck'], '%r %r' % (a, b)))
+    elif k == 'serial-malformed':
+        sub = Acc()
+        serial_malformed(sub)
+        acc.n += sub.n
+        acc.viols.extend(v for v in sub.viols if v['case'] == case)
     elif k == 'serial':
         sub = Acc()
         serial_noeffect(sub)
